@@ -125,6 +125,46 @@ theorem fmt_all (P : Piece → Prop) (h : Heap) (o : Opts)
                   · simp at hp
                 · simp at hp; subst hp; exact he _
 
+/-! ### splitting a value into display lines -/
+
+theorem splitOnChar_ne_nil (c : Char) (s : Str) : splitOnChar c s ≠ [] := by
+  induction s with
+  | nil => simp [splitOnChar]
+  | cons x xs ih =>
+    simp only [splitOnChar]
+    split
+    · simp
+    · split <;> simp
+
+/-- characters on all lines + one separator between consecutive lines = the text -/
+theorem splitOnChar_size (c : Char) (s : Str) :
+    ((splitOnChar c s).map List.length).sum + (splitOnChar c s).length = s.length + 1 := by
+  induction s with
+  | nil => simp [splitOnChar]
+  | cons x xs ih =>
+    simp only [splitOnChar]
+    split
+    · rename_i h; exact absurd h (splitOnChar_ne_nil c xs)
+    · rename_i l ls h
+      rw [h] at ih
+      split <;> simp_all <;> omega
+
+theorem intercalate_length (c : Char) : ∀ ls : List Str, ls ≠ [] →
+    ([c].intercalate ls).length + 1 = (ls.map List.length).sum + ls.length
+  | [], h => absurd rfl h
+  | [l], _ => by simp [List.intercalate]
+  | l :: m :: rest, _ => by
+    have ih := intercalate_length c (m :: rest) (by simp)
+    simp only [List.intercalate, List.intersperse, List.flatten_cons, List.length_append, List.map_cons,
+      List.sum_cons, List.length_cons, List.length_nil] at *
+    omega
+
+theorem splitOnChar_replicate_sep (c : Char) (n : Nat) :
+    splitOnChar c (List.replicate n c) = List.replicate (n + 1) [] := by
+  induction n with
+  | zero => rfl
+  | succ n ih => simp [List.replicate_succ, splitOnChar, ih]
+
 /-! ### folding -/
 
 theorem foldFrames_all (P : Piece → Prop) (o : Opts) (d : Nat)
